@@ -35,7 +35,79 @@ func API.mapDecodeSlice
   requires api != nil && opts != nil && valueType != nil
   modifies everything
 
+-- every entry is decoded into holders of its own: the key and element values stored for an entry were created in the
+-- iteration that decodes that entry (a holder shared between entries makes later entries inherit the contents of earlier
+-- ones: slices and maps are decoded by appending / inserting into what the holder already has)
 func API.mapDecodeMap
   requires api != nil && opts != nil && valueType != nil
   modifies everything
+  ghost local keyfresh Bool       -- a key holder has been created since the last entry was stored (ghost)
+  ghost local elemfresh Bool      -- an element holder has been created since the last entry was stored (ghost)
+  ghost after call New #1: keyfresh = true
+  ghost after call New #2: elemfresh = true
+  ghost before call Value.SetMapIndex: assert keyfresh && elemfresh
+  ghost after call Value.SetMapIndex: keyfresh = false
+  ghost after call Value.SetMapIndex: elemfresh = false
+
+-- ---------------------------------------------------------------------------------------------------------------
+-- TypeSettings (plain values): what the decoder of map types relies on
+-- ensureOrdering: the same settings with lexical ordering switched on, in the flag and in the validation mode of a
+-- private copy of the array rules (all other rules kept; the caller's rules object is not touched; nothing else - in
+-- particular no "no duplicates" mode, which would reject equal elements of different keys - is added)
+func TypeSettings.ensureOrdering
+  modifies nothing
+  ensures r0.lexicalOrdering != nil && *r0.lexicalOrdering
+  ensures r0.arrayRules != nil && fresh(r0.arrayRules) && fresh(r0.lexicalOrdering)
+  ensures ts.arrayRules != nil ==> r0.arrayRules.ValidationMode == bitor(ts.arrayRules.ValidationMode, serializer.ArrayValidationModeLexicalOrdering)
+  ensures ts.arrayRules != nil ==> r0.arrayRules.Min == ts.arrayRules.Min && r0.arrayRules.Max == ts.arrayRules.Max && r0.arrayRules.MustOccur == ts.arrayRules.MustOccur
+  ensures ts.arrayRules == nil ==> r0.arrayRules.ValidationMode == bitor(0, serializer.ArrayValidationModeLexicalOrdering) && r0.arrayRules.Min == 0 && r0.arrayRules.Max == 0 && r0.arrayRules.MustOccur == nil
+  ensures r0.fieldKey == ts.fieldKey && r0.description == ts.description && r0.objectType == ts.objectType && r0.lengthPrefixType == ts.lengthPrefixType
+
+func TypeSettings.WithLexicalOrdering
+  modifies nothing
+  ensures r0.lexicalOrdering != nil && fresh(r0.lexicalOrdering) && *r0.lexicalOrdering == val
+  ensures r0.arrayRules == ts.arrayRules && r0.fieldKey == ts.fieldKey && r0.description == ts.description && r0.objectType == ts.objectType && r0.lengthPrefixType == ts.lengthPrefixType
+
+func TypeSettings.LexicalOrdering
+  ensures set <==> ts.lexicalOrdering != nil
+  ensures val <==> ts.lexicalOrdering != nil && *ts.lexicalOrdering
+
+func TypeSettings.WithArrayRules
+  modifies nothing
+  ensures r0.arrayRules == rules
+  ensures r0.lexicalOrdering == ts.lexicalOrdering && r0.fieldKey == ts.fieldKey && r0.description == ts.description && r0.objectType == ts.objectType && r0.lengthPrefixType == ts.lengthPrefixType
+
+func TypeSettings.ArrayRules
+  ensures r0 == ts.arrayRules
+
+-- merge: the receiver's settings win, the other's fill the gaps
+func TypeSettings.merge
+  modifies nothing
+  ensures r0.lengthPrefixType == (ts.lengthPrefixType == nil ? other.lengthPrefixType : ts.lengthPrefixType)
+  ensures r0.objectType == (ts.objectType == nil ? other.objectType : ts.objectType)
+  ensures r0.lexicalOrdering == (ts.lexicalOrdering == nil ? other.lexicalOrdering : ts.lexicalOrdering)
+  ensures r0.arrayRules == (ts.arrayRules == nil ? other.arrayRules : ts.arrayRules)
+  ensures r0.fieldKey == (ts.fieldKey == nil ? other.fieldKey : ts.fieldKey)
+  ensures r0.description == ts.description
+
+func TypeSettings.MinLen
+  ensures r1 <==> ts.arrayRules != nil && ts.arrayRules.Min != 0
+  ensures r1 ==> r0 == ts.arrayRules.Min
+  ensures !r1 ==> r0 == 0
+func TypeSettings.MaxLen
+  ensures r1 <==> ts.arrayRules != nil && ts.arrayRules.Max != 0
+  ensures r1 ==> r0 == ts.arrayRules.Max
+  ensures !r1 ==> r0 == 0
+
+-- the length of a collection is within the bounds that are set (0 = unbounded)
+func TypeSettings.checkMinMaxBoundsLength
+  requires length >= 0
+  ensures r0 == nil <==> (ts.arrayRules == nil || ((ts.arrayRules.Min == 0 || length >= ts.arrayRules.Min) && (ts.arrayRules.Max == 0 || length <= ts.arrayRules.Max)))
+
+func LengthPrefixTypeSize
+  ensures t == LengthPrefixTypeAsByte ==> r0 == 1 && r1 == nil
+  ensures t == LengthPrefixTypeAsUint16 ==> r0 == 2 && r1 == nil
+  ensures t == LengthPrefixTypeAsUint32 ==> r0 == 4 && r1 == nil
+  ensures t == LengthPrefixTypeAsUint64 ==> r0 == 8 && r1 == nil
+  ensures !(t == LengthPrefixTypeAsByte || t == LengthPrefixTypeAsUint16 || t == LengthPrefixTypeAsUint32 || t == LengthPrefixTypeAsUint64) ==> r1 != nil && r0 == 0
 @*/
